@@ -75,6 +75,13 @@ impl Exec {
     pub fn begin_op(&mut self, op: u32) {
         simos::with_ctx(|c| c.io.begin_op(op));
     }
+    /// Runs `f` with fault injection switched off (an auxiliary call that is not the subject of the run).
+    pub fn quietly<T>(&mut self, f: impl FnOnce(&mut Exec) -> T) -> T {
+        simos::with_ctx(|c| c.io.quiet = true);
+        let r = f(self);
+        simos::with_ctx(|c| c.io.quiet = false);
+        r
+    }
     /// Runs `f` - another case of the same property - ahead of the case proper, on the same thread and in the same
     /// process: no fault is injected, nothing it reports is kept, and the simulated disk is wiped afterwards. What the
     /// code under test remembers from it (thread-local scratch space, process-wide caches, counters) is still
